@@ -3,10 +3,12 @@ package main
 import (
 	"context"
 	"fmt"
+	"runtime"
 	"sync/atomic"
 	"time"
 
 	goat "github.com/avos-io/goat"
+	"google.golang.org/grpc"
 )
 
 // c14ExpiredUnary: unary calls whose deadline has ALREADY passed when they are made, over the
@@ -79,4 +81,96 @@ func c14ExpiredUnary(r *Run) {
 			return
 		}
 	}
+}
+
+// c14Ctx is a context of the application's own (not one of the standard library's cancel contexts):
+// the library can follow it only by watching its Done channel.
+type c14Ctx struct {
+	context.Context
+	done chan struct{}
+}
+
+func (c *c14Ctx) Done() <-chan struct{} { return c.done }
+func (c *c14Ctx) Err() error {
+	select {
+	case <-c.done:
+		return context.Canceled
+	default:
+		return nil
+	}
+}
+
+// c14OwnServeContext: Serve is given a context type of the application's own (tied to a socket's
+// lifetime, merged from several sources, …). A few hundred RPCs WITH DEADLINES, unary and streaming,
+// run to their end. Whenever none is in flight the number of goroutines is back at its idle level:
+// nothing started on behalf of a finished RPC keeps watching that context.
+func c14OwnServeContext(r *Run) {
+	if !r.Want("ownctx") {
+		return
+	}
+	in := map[string]any{"serve_context": "application-defined type with its own Done channel", "rpcs": "150 unary + 150 streaming, each with a deadline"}
+	r.Progress("ownctx", in)
+	c2s, s2c := make(chan *Rpc, 64), make(chan *Rpc, 64)
+	impl := &Impl{}
+	impl.SetUnary(func(ctx context.Context, req []byte) ([]byte, error) { return req, nil })
+	impl.SetStream(func(m string, ss grpc.ServerStream) error {
+		recvB(ss)
+		return sendB(ss, []byte("r"))
+	})
+	srv := goat.NewServer("srv")
+	srv.RegisterService(&echoDesc, impl)
+	sctx := &c14Ctx{Context: context.Background(), done: make(chan struct{})}
+	served := make(chan error, 1)
+	go func() { served <- srv.Serve(sctx, goat.NewGoatOverChannel(c2s, s2c)) }()
+	cc := goat.NewClientConn(goat.NewGoatOverChannel(s2c, c2s), "cli", "srv")
+	round := func(n int) {
+		for i := 0; i < n; i++ {
+			ctx, cancel := context.WithTimeout(context.Background(), time.Minute)
+			if i%2 == 0 {
+				callUnary(ctx, cc, []byte("u"))
+			} else if cs, err := cc.NewStream(ctx, descBidi, mBidi); err == nil {
+				sendB(cs, []byte("m"))
+				cs.CloseSend()
+				for {
+					if _, err := recvB(cs); err != nil {
+						break
+					}
+				}
+			}
+			cancel()
+		}
+	}
+	// every goroutine of the process counts here: what a finished RPC leaves watching the context has no
+	// frame of the library on its stack
+	settle := func(want int) int {
+		deadline := time.Now().Add(hangTimeout / 2)
+		n := runtime.NumGoroutine()
+		for n > want && time.Now().Before(deadline) {
+			time.Sleep(5 * time.Millisecond)
+			n = runtime.NumGoroutine()
+		}
+		return n
+	}
+	round(10) // warm-up: lazily started goroutines exist now
+	settleGoroutines(0)
+	idle := settle(0)
+	idle = settle(idle)
+	round(300)
+	after := settle(idle + 2)
+	where := goroutineDump()
+	if len(where) > 6000 {
+		where = where[:6000]
+	}
+	r.Eval("ownctx", true)
+	r.Count("c14.ownctx")
+	if after > idle+2 {
+		r.Violate("ownctx.goroutines", "history", fmt.Sprintf("no RPC is in flight, but %d goroutines are alive where the idle level is %d: finished RPCs with a deadline left something watching the Serve context", after, idle), in, where, fmt.Sprintf("%d goroutines", idle))
+	}
+	close(sctx.done)
+	srv.Stop()
+	cc.Close()
+	close(c2s)
+	within(hangTimeout, func() { <-served })
+	close(s2c)
+	settleGoroutines(0)
 }
